@@ -154,7 +154,7 @@ def decodeAs (p : Params) (type : String) (j : Json) : Ans :=
   | _ => { cls := "err", site := "unknown type " ++ type }
 
 def callName : Call → String
-  | .admit t b => "admit " ++ t.id ++ " " ++ b
+  | .toPool t b => "pool " ++ t.id ++ " " ++ b
   | .blocks h => "blocks " ++ toString h
   | .addTargets ts => "addTargets " ++ text (encStrings ts)
   | .utxos a => "utxos " ++ a
